@@ -212,6 +212,8 @@ class Facts:
                           self._c(t.value, fr), t, s, node))
         elif isinstance(t, ast.Starred):
             self._store(out, t.value, s, node, fr, kind)
+        elif isinstance(t, ast.Name):
+            out.append(Op(kind, ('%local', t.id), t, s, node))
         else:
             out.append(Op(kind, self._c(t, fr), t, s, node))
 
@@ -356,6 +358,15 @@ def provenance(expr, fr, F, _seen=None, depth=0):
             p = F.b.canon(n.func, fr)
             if p is not None:
                 out.add(('call', p))
+            if depth < 3:
+                tgt = F.b.resolve_call(n, fr)
+                if tgt is not None and not tgt.func.is_generator and \
+                        not any(a.func is tgt.func for a in fr.chain()):
+                    nf = F.b.make_frame(n, tgt, fr)
+                    from .model import walk_local as _wl
+                    for r in _wl(tgt.func.node):
+                        if isinstance(r, ast.Return) and r.value is not None:
+                            out |= provenance(r.value, nf, F, None, depth + 1)
         elif isinstance(n, ast.Attribute):
             out.add(('attr', n.attr))
             if dotted(n):
